@@ -31,6 +31,11 @@ CLAIMED = {
         technique="TLA+ spec Registry (flat JSON node set + callables) and Pointer (RFC 6901) checked by TLC in a small scope; TLC graph replayed on the real Registry directly and through a Router mount; random sequential and concurrent histories checked for linearizability by TLC trace validation",
         text="TLC exhausts registrations, merges, reads, writes and calls over 6 pointers and 3 values (TreeShaped, ReadYourWrite, Frame, RootMerge, ReadPure, CallExactlyOnce as step properties). The graph of a reduced scope is replayed on a real Registry (every edge, all paths to depth 4/5), both directly and through Router::with_registry under a prefix, comparing each result and a read of every probe pointer. Random 100-operation histories and up-to-4-thread concurrent histories over pointers with escapes, empty tokens, array indices and deep nesting are accepted only if TLC finds a linearization in the same model, and every logged pointer is re-tokenised by the TLA+ Pointer module.",
         note="Trusts TLC, serde_json for value fidelity and the harness' flat-node conversion. '/' is modelled as the root as built; non-canonical array index tokens are not generated."),
+    "C19": dict(
+        category="model_checking", design_ref="DESIGN.md §5 C19",
+        technique="TLA+ spec Fleet (retry loop, cached client, scripted node) checked by TLC over every outcome script; the scripts played against the real Fleet/AsyncFleet by a scripted fake node, single-stepped through a probe, and the recorded attempts trace-validated by TLC",
+        text="TLC checks the retry-loop model for max_attempts 1..3 over every script of length <= max+2 of the seven outcomes (AttemptBound, RetryOnlyTransport, StopAtFirstReply, NotWedged), with must-violate configurations for the retryable-error set. The same scripts are then played by a scripted TCP node against the real blocking and async fleets (all scripts for max 1-2, sampled for max 3 in the quick tier, all in the thorough tier), the retry loop single-stepped through a hook probe; each attempt (what the node did, what the loop saw), the call result and the two healthy-phase calls are validated by the trace specification. Broadcasts over every tag subset on 4 nodes are validated the same way.",
+        note="Trusts TLC, the fake node, and the two add-only hook lines per retry loop (probe + attempt event). Time enters only through the node timeout of silent outcomes."),
 }
 
 NOT_YET = {}
